@@ -7,6 +7,8 @@
 (c) hierarchical_clustering(seqs, ...)            vs scipy linkage / fcluster applied to the MODEL's condensed distance vector
 (d) single linkage cut at t                       vs api_components of the max_edits = t neighbour graph from the real search
                                                   and vs the single-linkage model's cut (C15_single_linkage_cut / _neighbour_graph)
+Audit widening (NOTES.md): (a)-(d) over the containers / forms / sizes / options / call histories the parts above never generated:
+cc_input_kinds, cc_raw_search, cc_large, cc_refill, community_extra, hc_extras, hc_refill, sl_extras (all drawn after the older parts).
 """
 import itertools
 import numpy as np
@@ -65,10 +67,13 @@ def edges_of(adj):
     return [(int(t[0]), int(t[1])) for t in adj]
 
 
-def search(engine, seqs, k):
+def search(engine, seqs, k, raw=False):
     """neighbour triplets from the real search function; k = 0 keeps the distance-0 pairs of the k = 1 search
-    (the search functions reject max_edits = 0)."""
+    (the search functions reject max_edits = 0). raw: the object the search returns, untouched (what a caller hands straight on to
+    graph_clustering: whatever integer types the engine happens to produce), output_type left at its default."""
     import pyrepseq.nn as nn
+    if raw:
+        return getattr(nn, engine)(list(seqs), max_edits=max(1, k))
     if engine.endswith('_x'):
         # the two-collection form of the search with the collection searched against itself (seqs2 = seqs): every sequence is
         # listed as its own neighbour, (i, i, 0), next to the pairs of the one-collection form
@@ -95,33 +100,76 @@ def engine_ok(engine, seqs, k):
     return True
 
 
+ADJ_KINDS = ['list', 'lists', 'tuple', 'ndarray', 'int32', 'float64', 'floatdist', 'npscalars', 'fortran', 'view']
+NODE_KINDS = ['list', 'tuple', 'ndarray', 'ndarray_U', 'series', 'series_perm', 'series_str', 'index', 'categorical']
+
+
 def adj_as(kind, adj):
+    """the neighbour list in the containers a caller holds it in (array_like of (i, j, dist))."""
+    if kind in ('raw', 'asis'):
+        return adj
     if kind == 'list':
         return [tuple(t) for t in adj]
     if kind == 'ndarray':
         return np.array(adj) if adj else np.array(adj)
     if kind == 'ndarray0x3':
         return np.array(adj, dtype=np.int64).reshape(-1, 3)
+    if kind == 'lists':
+        return [list(t) for t in adj]
+    if kind == 'tuple':
+        return tuple(tuple(t) for t in adj)
+    if kind == 'int32':
+        return np.array(adj, dtype=np.int32).reshape(-1, 3)
+    if kind == 'float64':                 # what np.array makes of triplets with a float (custom) distance
+        return np.array(adj, dtype=np.float64).reshape(-1, 3)
+    if kind == 'floatdist':               # python tuples (int, int, float)
+        return [(int(a), int(b), float(d) + 0.5) for a, b, d in adj]
+    if kind == 'npscalars':
+        return [(np.int64(a), np.int32(b), np.int64(d)) for a, b, d in adj]
+    if kind == 'fortran':
+        return np.asfortranarray(np.array(adj, dtype=np.int64).reshape(-1, 3))
+    if kind == 'view':                    # every second column of a wider table: not contiguous
+        wide = np.full((len(adj), 6), -7, dtype=np.int64)
+        wide[:, ::2] = np.array(adj, dtype=np.int64).reshape(-1, 3)
+        return wide[:, ::2]
     raise ValueError(kind)
 
 
 def nodes_as(which, labels):
-    """the caller's node labels in the containers a caller uses: list, ndarray, a column of a filtered / re-ordered table
-    (Series whose index is not 0..n-1), pandas Index"""
+    """the caller's node labels in the containers a caller uses: list, tuple, ndarray (object / fixed-width dtype), a column of a
+    filtered / re-ordered table (Series whose index is not 0..n-1: shifted, a permutation of 0..n-1, strings), pandas Index,
+    Categorical. (numbers: the four forms used by the older parts)"""
     labels = list(labels)
-    if which == 1:
+    n = len(labels)
+    if which == 1 or which == 'ndarray':
         return np.array(labels, dtype=object)
     if which == 2:
-        return pd.Series(labels, index=[3 * i + 5 for i in range(len(labels))][::-1], dtype=object)
-    if which == 3:
+        return pd.Series(labels, index=[3 * i + 5 for i in range(n)][::-1], dtype=object)
+    if which == 3 or which == 'index':
         return pd.Index(labels)
+    if which == 'tuple':
+        return tuple(labels)
+    if which == 'ndarray_U':
+        return np.array(labels)
+    if which == 'series':
+        return pd.Series(labels, dtype=object)
+    if which == 'series_perm':            # index = a permutation of 0..n-1: label-based and positional access differ
+        return pd.Series(labels, index=[(i + 1) % n for i in range(n)][::-1], dtype=object)
+    if which == 'series_str':
+        return pd.Series(labels, index=['row%d' % (n - i) for i in range(n)], dtype=object)
+    if which == 'categorical':
+        return pd.Categorical(labels)
     return labels
 
 
 # ------------------------------------------------------------------ (a) connected components
-def cc_outcome(adj, kind, labels):
+def cc_outcome(adj, kind, labels, nkind=None):
     from pyrepseq.clustering import graph_clustering
-    g = call_impl(lambda: graph_clustering(adj_as(kind, adj), nodes_as(len(adj) % 4, labels), 'cc'))
+    nodes = nodes_as(len(adj) % 4 if nkind is None else nkind, labels)
+    if nkind is not None and len(adj) % 2:
+        g = call_impl(lambda: graph_clustering(nodes=nodes, adjacency_matrix=adj_as(kind, adj), clustering='cc'))
+    else:
+        g = call_impl(lambda: graph_clustering(adj_as(kind, adj), nodes, 'cc'))
     if g[0] != 'ok':
         return g
     try:
@@ -130,40 +178,43 @@ def cc_outcome(adj, kind, labels):
         return ('exc', 'BadFrame:%s' % e)
 
 
-def check_cc(ctx, n, adj, kind, labels, desc, seqs=None, engine=None, k=None):
-    """returns True when implementation and model agree."""
+def check_cc(ctx, n, adj, kind, labels, desc, seqs=None, engine=None, k=None, nkind=None):
+    """returns True when implementation and model agree. nkind: container of the node labels (None: the older parts' rule)."""
+    raw = kind == 'raw'
     exp_pairs = ctx.oracle.run([('api_graph_cc', [n, edges_of(adj)])])[0]
-    expected = label_clusters([(labels[u], c) for u, c in exp_pairs])
-    got = cc_outcome(adj, kind, labels)
+    expected = label_clusters([(str(labels[u]), c) for u, c in exp_pairs])
+    got = cc_outcome(adj, kind, labels, nkind)
     if got == ('ok', expected):
         return True
-    rep = dict(part='cc', n=n, adj=adj, kind=kind, labels=list(labels), seqs=seqs, engine=engine, k=k)
+    rep = dict(part='cc', n=n, adj=[tuple(int(x) for x in t) for t in adj] if raw else adj, kind=kind, labels=list(labels), seqs=seqs,
+               engine=engine, k=k, nkind=nkind)
     # shrink over the sequence list when the edges came from a search
     if seqs is not None and engine is not None and len(seqs) <= 80:
         def fails(ss):
-            a = search(engine, ss, k)
+            a = search(engine, ss, k, raw)
             labs = ['L%d' % i for i in range(len(ss))]
             e = ctx.oracle.run([('api_graph_cc', [len(ss), edges_of(a)])])[0]
-            return cc_outcome(a, kind, labs) != ('ok', label_clusters([(labs[u], c) for u, c in e]))
+            return cc_outcome(a, kind, labs, nkind) != ('ok', label_clusters([(labs[u], c) for u, c in e]))
         try:
             ss = shrink_list(seqs, fails, max_steps=150)
             if fails(ss):
-                a = search(engine, ss, k)
+                a = search(engine, ss, k, raw)
                 labs = ['L%d' % i for i in range(len(ss))]
                 e = ctx.oracle.run([('api_graph_cc', [len(ss), edges_of(a)])])[0]
-                rep = dict(part='cc', n=len(ss), adj=a, kind=kind, labels=labs, seqs=ss, engine=engine, k=k)
+                rep = dict(part='cc', n=len(ss), adj=[tuple(int(x) for x in t) for t in a], kind=kind, labels=labs, seqs=ss, engine=engine, k=k,
+                           nkind=nkind)
                 expected = label_clusters([(labs[u], c) for u, c in e])
-                got = cc_outcome(a, kind, labs)
+                got = cc_outcome(a, kind, labs, nkind)
         except Exception:
             pass
     site = 'clustering.graph_clustering[empty]' if len(rep['adj']) == 0 else 'clustering.graph_clustering[cc]'
-    ctx.violation('property', "%s: graph_clustering(adj=%s as %s, nodes=%s, 'cc') gave %s but the connected components with more than one member are %s" %
-                  (desc, rep['adj'][:12], kind, rep['labels'][:12], jsonable(got), expected), rep, site=site)
+    ctx.violation('property', "%s: graph_clustering(adj=%s as %s, nodes=%s%s, 'cc') gave %s but the connected components with more than one member are %s" %
+                  (desc, rep['adj'][:12], kind, rep['labels'][:12], '' if nkind is None else ' as %s' % nkind, jsonable(got), expected), rep, site=site)
     return False
 
 
 # ------------------------------------------------------------------ (b) community variants
-def community_labelling(n, adj, labels, method, kw, seed):
+def community_labelling(n, adj, labels, method, kw, seed, akind='list', nkind='list'):
     """('ok', P) with P the full per-node labelling (nodes absent from the output are singletons), or ('bad', reason).
     igraph draws from Python's random module; it is pointed at a generator seeded from the harness stream so a run replays."""
     import random as _random
@@ -171,7 +222,7 @@ def community_labelling(n, adj, labels, method, kw, seed):
     from pyrepseq.clustering import graph_clustering
     igraph.set_random_number_generator(_random.Random(seed))
     try:
-        g = call_impl(lambda: graph_clustering([tuple(t) for t in adj], list(labels), method, **kw))
+        g = call_impl(lambda: graph_clustering(adj_as(akind, adj), nodes_as(nkind, labels), method, **kw))
     finally:
         igraph.set_random_number_generator(_random)
     if g[0] != 'ok':
@@ -194,17 +245,24 @@ def community_labelling(n, adj, labels, method, kw, seed):
     return ('ok', P)
 
 
-def report_community(ctx, n, adj, labels, method, kw, seed, desc, seqs, why):
-    ctx.violation('property', '%s: graph_clustering(adj=%s, nodes=%s, %r, **%s) [igraph rng seed %d]: %s' %
-                  (desc, adj[:16], labels[:8], method, kw, seed, why),
-                  dict(part='community', n=n, adj=adj, labels=list(labels), method=method, kwargs=kw, seed=seed, seqs=seqs),
+def report_community(ctx, n, adj, labels, method, kw, seed, desc, seqs, why, akind='list', nkind='list'):
+    ctx.violation('property', '%s: graph_clustering(adj=%s%s, nodes=%s%s, %r, **%s) [igraph rng seed %d]: %s' %
+                  (desc, adj[:16], '' if akind == 'list' else ' as ' + akind, labels[:8], '' if nkind == 'list' else ' as ' + nkind, method, kw, seed, why),
+                  dict(part='community', n=n, adj=adj, labels=list(labels), method=method, kwargs=kw, seed=seed, seqs=seqs, akind=akind, nkind=nkind),
                   site='clustering.graph_clustering[%s]' % method)
 
 
-def check_community(ctx, n, adj, labels, method, kw, desc, seqs=None, seed=None):
+# igraph's own refusals (ARPACK / optimiser did not converge) of the two methods that have them: no clustering was returned, nothing to judge
+IGRAPH_MAY_DECLINE = {'leading_eigenvector': 'raised Other:InternalError', 'voronoi': 'raised Other:InternalError'}
+
+
+def check_community(ctx, n, adj, labels, method, kw, desc, seqs=None, seed=None, akind='list', nkind='list'):
     seed = ctx.rng.getrandbits(30) if seed is None else seed
-    r = community_labelling(n, adj, labels, method, kw, seed)
+    r = community_labelling(n, adj, labels, method, kw, seed, akind, nkind)
     why = None
+    if r[0] != 'ok' and IGRAPH_MAY_DECLINE.get(method) == r[1]:
+        ctx.count('community:%s-declined-by-igraph' % method)
+        return True
     if r[0] != 'ok':
         why = r[1]
     else:
@@ -214,7 +272,7 @@ def check_community(ctx, n, adj, labels, method, kw, desc, seqs=None, seed=None)
             u, v = next((u, v) for u in range(n) for v in range(n) if P[u] == P[v] and Q[u] != Q[v])
             why = 'nodes %s and %s are in one cluster but no path of neighbour edges connects them' % (labels[u], labels[v])
     if why is not None:
-        report_community(ctx, n, adj, labels, method, kw, seed, desc, seqs, why)
+        report_community(ctx, n, adj, labels, method, kw, seed, desc, seqs, why, akind, nkind)
         return False
     return True
 
@@ -310,20 +368,43 @@ def community_many_clusters(ctx, ngraphs, big=False):
 
 
 # ------------------------------------------------------------------ (c) hierarchical clustering vs SciPy on the model's vector
+STD_COLUMNS = ['TRAV', 'CDR3A', 'TRAJ', 'TRBV', 'CDR3B', 'TRBJ']
+
+
 def make_input(kind, cols, rng_perm):
     """cols: dict column -> list of strings (plain sequences under key None)."""
-    if kind in ('list', 'tuple', 'ndarray', 'series'):
+    if kind in ('list', 'tuple', 'ndarray', 'series', 'ndarray_U', 'series_default', 'series_intperm', 'index'):
         xs = cols[None]
         return {'list': lambda: list(xs), 'tuple': lambda: tuple(xs) if len(xs) != 2 else list(xs),
                 'ndarray': lambda: np.array(xs, dtype=object),
-                'series': lambda: pd.Series(list(xs), index=['r%d' % i for i in rng_perm], dtype=object)}[kind]()
+                'series': lambda: pd.Series(list(xs), index=['r%d' % i for i in rng_perm], dtype=object),
+                'ndarray_U': lambda: np.array(list(xs)),
+                'series_default': lambda: pd.Series(list(xs), dtype=object, name='CDR3B'),     # a column taken from a table
+                # index = a permutation of 0..n-1 (a re-ordered table's column): inputs are taken by POSITION
+                'series_intperm': lambda: pd.Series(list(xs), index=list(rng_perm), dtype=object),
+                'index': lambda: pd.Index(list(xs))}[kind]()
     if kind == 'pair_tuple':
         return (list(cols['CDR3A']), list(cols['CDR3B']))
+    if kind == 'pair_tuple_nd':
+        return (np.array(list(cols['CDR3A']), dtype=object), tuple(cols['CDR3B']))
     if kind == 'pair_tuple_series':
         # the two chains held in Series with unrelated indexes (taken from differently indexed tables): paired by POSITION
         return (pd.Series(list(cols['CDR3A']), index=list(rng_perm), dtype=object),
                 pd.Series(list(cols['CDR3B']), index=['t%d' % i for i in range(len(cols['CDR3B']))], dtype=object))
+    n = len(next(iter(cols.values())))
+    if kind == 'table_fullcols':
+        # all six standard columns, beta chain first, the columns the harness did not draw filled with one allele
+        full = {c: list(cols[c]) if c in cols else ['TR%sV1*01' % c[2] if c[3] == 'V' else 'TR%sJ1*01' % c[2]] * n
+                for c in ['TRBV', 'CDR3B', 'TRBJ', 'TRAV', 'CDR3A', 'TRAJ'] if c in cols or not c.startswith('CDR3')}
+        df = pd.DataFrame(full)
+        df.index = ['t%d' % i for i in rng_perm]
+        return df
     df = pd.DataFrame({c: list(v) for c, v in cols.items()})
+    if kind == 'table_dupindex':          # rows of a concatenated table: every index value occurs twice
+        df.index = [i // 2 for i in range(n)]
+        return df
+    if kind == 'table_default':
+        return df
     df.index = list(rng_perm) if kind == 'table_permuted' else ['t%d' % i for i in rng_perm]
     return df
 
@@ -340,47 +421,111 @@ def metric_columns(cols, metric_spec):
     return dict(cols), weights
 
 
+def custom_distance(scale, x, y):
+    """the distance of the harness's own Metric (a caller-defined metric): not an integer, scaled to any magnitude."""
+    return scale * (abs(len(x) - len(y)) + 0.25 * (x[:1] != y[:1]) + 0.5 * (x[-1:] != y[-1:]))
+
+
+def custom_metric(scale):
+    from pyrepseq.metric import Metric
+
+    class HarnessMetric(Metric):
+        name = 'harness metric'
+
+        def calc_cdist_matrix(self, anchors, comparisons):
+            return np.array([[custom_distance(scale, x, y) for y in comparisons] for x in anchors], dtype=np.float64)
+
+        def calc_pdist_vector(self, instances):
+            xs = list(instances)
+            return np.array([custom_distance(scale, xs[i], xs[j]) for i in range(len(xs)) for j in range(i + 1, len(xs))], dtype=np.float64)
+    return HarnessMetric()
+
+
 def model_vector(ctx, cols, weights):
-    reqs = [('api_pdist_wlev', [weights[0], weights[1], weights[2], list(v)]) for c, v in cols.items() if c is None or c.startswith('CDR3')]
+    """condensed distance vector of the model. weights: (ins, del, sub) or (ins, del, sub, alpha weight, beta weight);
+    ('Custom', scale) columns: the harness metric's own formula."""
+    weights = tuple(weights)
+    chain = {'CDR3A': weights[3], 'CDR3B': weights[4]} if len(weights) == 5 else {}
+    keys = [c for c in cols if c is None or c.startswith('CDR3')]
+    reqs = [('api_pdist_wlev', [weights[0], weights[1], weights[2], list(cols[c])]) for c in keys]
     outs = ctx.oracle.run(reqs)
+    outs = [[chain.get(c, 1) * d for d in o] for c, o in zip(keys, outs)]
     return [sum(t) for t in zip(*outs)] if outs and len(outs[0]) else []
 
 
-def hc_compare(ctx, cols, kind, perm, metric_spec, linkage_kws, cluster_kws, desc):
+_HC_DEFAULTS = []
+
+
+def hc_defaults():
+    """the function's own documented defaults of linkage_kws / cluster_kws, read from its signature ONCE, before the first call of this
+    process: what an omitted option means on every later call too."""
+    if not _HC_DEFAULTS:
+        import copy
+        import inspect
+        import pyrepseq.distance as ds
+        sig = inspect.signature(ds.hierarchical_clustering).parameters
+        lk, ck = sig['linkage_kws'].default, sig['cluster_kws'].default
+        # (a signature that fills its defaults inside the body: the documented values of the pinned tree)
+        lk = lk if isinstance(lk, dict) else dict(method='average', optimal_ordering=True)
+        ck = ck if isinstance(ck, dict) else dict(t=6, criterion='distance')
+        _HC_DEFAULTS.append((copy.deepcopy(dict(lk)), copy.deepcopy(dict(ck))))
+    return _HC_DEFAULTS[0]
+
+
+def with_arrays(kws):
+    """option dicts as stored in a replay -> as handed to SciPy (monocrit is an array)."""
+    kws = dict(kws)
+    if 'monocrit' in kws:
+        kws['monocrit'] = np.array(kws['monocrit'], dtype=np.float64)
+    return kws
+
+
+def hc_compare(ctx, cols, kind, perm, metric_spec, linkage_kws, cluster_kws, desc, positional=False):
+    """positional: the metric is handed over as the second positional argument."""
     import pyrepseq.distance as ds
     import scipy.cluster.hierarchy as hc
     from pyrepseq.metric import Levenshtein, WeightedLevenshtein
     from pyrepseq.metric.tcr_metric import BetaCdr3Levenshtein, AlphaCdr3Levenshtein, Cdr3Levenshtein
+    dlk, dck = hc_defaults()
     n = len(next(iter(cols.values())))
-    used, weights = metric_columns(cols, metric_spec)
     metric = None
-    if metric_spec is not None:
-        metric = dict(Levenshtein=lambda: Levenshtein(), WeightedLevenshtein=lambda: WeightedLevenshtein(*weights),
-                      BetaCdr3Levenshtein=lambda: BetaCdr3Levenshtein(*weights), AlphaCdr3Levenshtein=lambda: AlphaCdr3Levenshtein(*weights),
-                      Cdr3Levenshtein=lambda: Cdr3Levenshtein(*weights))[metric_spec[0]]()
-    vec = model_vector(ctx, used, weights)
+    if metric_spec is not None and metric_spec[0] == 'Custom':
+        scale = metric_spec[1][0]
+        metric = custom_metric(scale)
+        xs = cols[None]
+        vec = [custom_distance(scale, xs[i], xs[j]) for i in range(n) for j in range(i + 1, n)]
+    else:
+        used, weights = metric_columns(cols, metric_spec)
+        if metric_spec is not None:
+            metric = dict(Levenshtein=lambda: Levenshtein(), WeightedLevenshtein=lambda: WeightedLevenshtein(*weights),
+                          BetaCdr3Levenshtein=lambda: BetaCdr3Levenshtein(*weights), AlphaCdr3Levenshtein=lambda: AlphaCdr3Levenshtein(*weights),
+                          Cdr3Levenshtein=lambda: Cdr3Levenshtein(*weights[:3]) if len(weights) == 3 else
+                          Cdr3Levenshtein(insertion_weight=weights[0], deletion_weight=weights[1], substitution_weight=weights[2],
+                                          alpha_weight=weights[3], beta_weight=weights[4]))[metric_spec[0]]()
+        vec = model_vector(ctx, used, weights)
     kw = {}
-    if metric is not None:
+    if metric is not None and not positional:
         kw['metric'] = metric
     if linkage_kws is not None:
-        kw['linkage_kws'] = dict(linkage_kws)
+        kw['linkage_kws'] = with_arrays(linkage_kws)
     if cluster_kws is not None:
-        kw['cluster_kws'] = dict(cluster_kws)
+        kw['cluster_kws'] = with_arrays(cluster_kws)
     # omitted options: the function's own documented defaults (read from its signature, the statement does not fix them)
-    import inspect
-    sig = inspect.signature(ds.hierarchical_clustering).parameters
-    lk = dict(sig['linkage_kws'].default if linkage_kws is None else linkage_kws)
-    ck = dict(sig['cluster_kws'].default if cluster_kws is None else cluster_kws)
+    lk = with_arrays(dlk if linkage_kws is None else linkage_kws)
+    ck = with_arrays(dck if cluster_kws is None else cluster_kws)
     x = make_input(kind, cols, perm)
     snapshot = x.copy(deep=True) if isinstance(x, (pd.DataFrame, pd.Series)) else None
-    got = call_impl(lambda: ds.hierarchical_clustering(x, **kw))
+    if positional and metric is not None:
+        got = call_impl(lambda: ds.hierarchical_clustering(x, metric, **kw))
+    else:
+        got = call_impl(lambda: ds.hierarchical_clustering(x, **kw))
 
     def ref():
         Z = hc.linkage(np.array(vec, dtype=np.float64), **lk)
         return Z, hc.fcluster(Z, **ck)
     exp = call_impl(ref)
     rep = dict(part='hc', cols={str(k): v for k, v in cols.items()}, kind=kind, perm=list(perm), metric=metric_spec,
-               linkage_kws=linkage_kws, cluster_kws=cluster_kws)
+               linkage_kws=linkage_kws, cluster_kws=cluster_kws, positional=positional)
     site = 'distance.hierarchical_clustering'
     ok = got[0] == exp[0]
     why = ''
@@ -402,22 +547,34 @@ def hc_compare(ctx, cols, kind, perm, metric_spec, linkage_kws, cluster_kws, des
             elif cl.shape != (n,):
                 ok, why = False, 'not one label per input: %d labels for %d inputs' % (cl.size, n)
             elif not np.array_equal(cl, clr):
-                ok, why = False, 'flat clusters %s differ from fcluster %s' % (cl.tolist()[:20], clr.tolist()[:20])
+                bad = [i for i in range(n) if cl[i] != clr[i]][:1]
+                ok, why = False, 'flat clusters %s differ from fcluster %s%s' % (cl.tolist()[:20], clr.tolist()[:20],
+                                                                                 ' (first at input %d: %s vs %s)' % (bad[0], cl[bad[0]], clr[bad[0]]) if bad and bad[0] >= 20 else '')
     if ok and snapshot is not None and not snapshot.equals(x):
         ok, why = False, 'the caller\'s table was modified'
     if not ok:
-        ctx.violation('property', '%s: hierarchical_clustering(%s %s, metric=%s, linkage_kws=%s, cluster_kws=%s): %s' %
-                      (desc, kind, {str(k): v[:8] for k, v in cols.items()}, metric_spec, linkage_kws, cluster_kws, why), rep, site=site)
+        ctx.violation('property', '%s: hierarchical_clustering(%s %s, metric=%s%s, linkage_kws=%s, cluster_kws=%s): %s' %
+                      (desc, kind, {str(k): [w[:40] for w in v[:8]] for k, v in cols.items()}, metric_spec, ' (positional)' if positional else '',
+                       linkage_kws, cluster_kws, why), rep, site=site)
     return ok
 
 
 # ------------------------------------------------------------------ (d) single linkage at t = components of the t-neighbour graph
-def sl_compare(ctx, seqs, t, engine, desc, check_heights=True):
+def sl_compare(ctx, seqs, t, engine, desc, check_heights=True, variant=None):
+    """variant: dict(kind=container of the sequences, float_t=threshold handed over as a float, optimal_ordering=...)."""
     import pyrepseq.distance as ds
     n = len(seqs)
-    got = call_impl(lambda: ds.hierarchical_clustering(list(seqs), linkage_kws=dict(method='single'),
-                                                       cluster_kws=dict(t=t, criterion='distance')))
-    rep = dict(part='single', seqs=list(seqs), t=t, engine=engine)
+    variant = dict(variant or {})
+    lkw = dict(method='single')
+    if 'optimal_ordering' in variant:
+        lkw['optimal_ordering'] = bool(variant['optimal_ordering'])
+    targ = float(t) if variant.get('float_t') else t
+
+    def call(xs):
+        x = make_input(variant.get('kind', 'list'), {None: list(xs)}, list(range(1, len(xs))) + [0])
+        return call_impl(lambda: ds.hierarchical_clustering(x, linkage_kws=dict(lkw), cluster_kws=dict(t=targ, criterion='distance')))
+    got = call(seqs)
+    rep = dict(part='single', seqs=list(seqs), t=t, engine=engine, variant=variant)
     site = 'distance.hierarchical_clustering[single]'
     if got[0] != 'ok':
         ctx.violation('property', '%s: hierarchical_clustering(%s, single, t=%d) raised %s' % (desc, seqs[:12], t, got[1]), rep, site=site)
@@ -443,7 +600,7 @@ def sl_compare(ctx, seqs, t, engine, desc, check_heights=True):
             def fails(xs):
                 if len(xs) < 2:
                     return False
-                g = call_impl(lambda: ds.hierarchical_clustering(list(xs), linkage_kws=dict(method='single'), cluster_kws=dict(t=t, criterion='distance')))
+                g = call(xs)
                 c = ctx.oracle.run([('api_c15_sl_cut_lev', [t, list(xs)])])[0]
                 return g[0] != 'ok' or partition_of(np.asarray(g[1][1]).tolist()) != partition_of(c)
             try:
@@ -452,9 +609,9 @@ def sl_compare(ctx, seqs, t, engine, desc, check_heights=True):
                     ss = s2
             except Exception:
                 pass
-        g = call_impl(lambda: ds.hierarchical_clustering(list(ss), linkage_kws=dict(method='single'), cluster_kws=dict(t=t, criterion='distance')))
+        g = call(ss)
         c = ctx.oracle.run([('api_c15_sl_cut_lev', [t, list(ss)])])[0]
-        rep = dict(part='single', seqs=ss, t=t, engine=engine)
+        rep = dict(part='single', seqs=ss, t=t, engine=engine, variant=variant)
         ctx.violation('property', '%s: hierarchical_clustering(%s, single linkage, distance t=%d) gives the partition %s but the connected components of the '
                       'max_edits = %d neighbour graph are %s' % (desc, ss[:14], t, partition_of(np.asarray(g[1][1]).tolist()) if g[0] == 'ok' else g, t, partition_of(c)),
                       rep, site=site)
@@ -570,10 +727,485 @@ def tcr_columns(rng, n, which):
     return cols
 
 
+# ------------------------------------------------------------------ audit widening: containers, edge-list forms, sizes, repeated calls
+def py_clusters(n, edges):
+    """the specification computed directly (union-find over the undirected edges): the classes with more than one member, as sorted
+    lists of node numbers. Used where the extracted model's unary numbers are too slow (2**15 nodes and more); tied to the model
+    (api_graph_cc) on every small graph of cc_input_kinds in the same run."""
+    parent = list(range(n))
+
+    def find(u):
+        while parent[u] != u:
+            parent[u] = parent[parent[u]]
+            u = parent[u]
+        return u
+    for a, b in edges:
+        ra, rb = find(a), find(b)
+        if ra != rb:
+            parent[max(ra, rb)] = min(ra, rb)
+    d = {}
+    for u in range(n):
+        d.setdefault(find(u), []).append(u)
+    return sorted(v for v in d.values() if len(v) > 1)
+
+
+def edge_form(rng, und, form, nself=()):
+    """neighbour list of the undirected edges `und` [(i, j)] in one of the forms such lists come in: 'sym' both orientations (the
+    one-collection search), 'one' a single orientation per pair (a caller who kept i < j, or max_returns), 'dup' orientations repeated
+    (two search results concatenated), 'self' both orientations plus the self pairs (i, i, 0) of the nodes in nself (two-collection
+    search). Distances are whatever the search reported: they do not decide connectivity."""
+    adj = []
+    for i, j in und:
+        d = rng.choice([0, 1, 1, 2, 3, 7, 25, 1000])
+        if form == 'one':
+            adj.append((i, j, d) if rng.random() < 0.5 else (j, i, d))
+        elif form == 'dup':
+            for _ in range(rng.randint(1, 3)):
+                adj.append((i, j, d))
+            for _ in range(rng.randint(0, 2)):
+                adj.append((j, i, d))
+        else:
+            adj += [(i, j, d), (j, i, d)]
+    if form == 'self':
+        adj += [(u, u, 0) for u in nself]
+    if form != 'sym':
+        rng.shuffle(adj)
+    return adj
+
+
+LABEL_KINDS = ['str', 'int_shift', 'int_perm', 'dup', 'float']
+
+
+def labels_of(lkind, n):
+    if lkind == 'int_shift':
+        return [100 + 7 * i for i in range(n)]
+    if lkind == 'int_perm':           # node numbers in another order: positions and labels must not be confused
+        return [(i + 2) % n for i in range(n)][::-1]
+    if lkind == 'dup':                # the sequences themselves, some equal
+        return ['CASS' + 'AFY'[i % 3] for i in range(n)]
+    if lkind == 'float':
+        return [0.5 + i for i in range(n)]
+    return ['s%d' % i for i in range(n)]
+
+
+def cc_input_kinds(ctx, nrandom):
+    """(a) over the containers and forms of its two arguments: every graph on 4 nodes and random graphs on 5-12 nodes, each in one of the
+    edge-list forms of edge_form, the list held in every kind of ADJ_KINDS, the labels (strings, integers that are not positions, equal
+    labels, floats) in every kind of NODE_KINDS. Expected: api_graph_cc, batched."""
+    rng = ctx.rng
+    forms = ['sym', 'one', 'dup', 'self']
+    pairs4 = [(i, j) for i in range(4) for j in range(i + 1, 4)]
+    cases = []
+    idx = 0
+    for mask in range(0, 1 << len(pairs4)):
+        und = [p for b, p in enumerate(pairs4) if mask >> b & 1]
+        for form in forms:
+            if form == 'dup' and mask % 3:
+                continue
+            if form == 'sym' and mask % 2:
+                continue
+            nself = [u for u in range(4) if rng.random() < 0.6]
+            cases.append((4, edge_form(rng, und, form, nself), form, idx, 'graph on 4 nodes #%d' % mask))
+            idx += 1
+    for _ in range(nrandom):
+        n = rng.randint(5, 12)
+        live = rng.sample(range(n), rng.randint(2, n - 1))          # at least one node without any edge
+        und = sorted(set(tuple(sorted(rng.sample(live, 2))) for _ in range(rng.randint(1, n))))
+        form = forms[idx % 4]
+        nself = [u for u in range(n) if rng.random() < 0.5]
+        cases.append((n, edge_form(rng, und, form, nself), form, idx, 'random graph on %d nodes' % n))
+        idx += 1
+    exps = ctx.oracle.run_parallel([('api_graph_cc', [n, edges_of(adj)]) for n, adj, _, _, _ in cases], nproc=4)
+    nbad = 0
+    for (n, adj, form, i, desc), exp_pairs in zip(cases, exps):
+        akind = ADJ_KINDS[i % len(ADJ_KINDS)]
+        nkind = NODE_KINDS[(i // len(ADJ_KINDS) + i) % len(NODE_KINDS)]
+        lkind = LABEL_KINDS[(i // 5 + i // 3) % len(LABEL_KINDS)]
+        if nkind == 'categorical' and lkind == 'dup':
+            lkind = 'str'
+        labels = labels_of(lkind, n)
+        ctx.count('cc:adj-as-' + akind)
+        ctx.count('cc:nodes-as-' + nkind)
+        ctx.count('cc:labels-' + lkind)
+        ctx.count('cc:edge-form-' + form)
+        ctx.case(nontrivial_key=('cc-kinds', n, tuple(adj), akind, nkind, lkind))
+        mine = py_clusters(n, edges_of(adj))
+        if mine != sorted(sorted(u for u, c in exp_pairs if c == c0) for c0 in set(c for _, c in exp_pairs)):
+            ctx.violation('correspondence', 'harness: union-find clusters %s differ from api_graph_cc %s on n=%d, %s' % (mine, exp_pairs, n, adj),
+                          dict(part='cc', n=n, adj=adj, kind='list', labels=labels), site='harness')
+        expected = label_clusters([(str(labels[u]), c) for u, c in exp_pairs])
+        if cc_outcome(adj, akind, labels, nkind) == ('ok', expected):
+            continue
+        nbad += 1
+        if nbad <= 3:
+            check_cc(ctx, n, adj, akind, labels, '%s, %s edge list' % (desc, form), nkind=nkind)
+    return nbad
+
+
+def cc_raw_search(ctx, ncases):
+    """(a) on what the search functions return, handed on UNTOUCHED (no conversion to Python ints, output_type at its default), with
+    the sequences as they are held (list / ndarray / Series) as node labels."""
+    rng = ctx.rng
+    for it in range(ncases):
+        eng = ENGINES[it % 4]
+        k = rng.choice([1, 2]) if eng == 'hash_based' else rng.choice([1, 1, 2, 3])
+        seqs = small_repertoire(rng, rng.randint(2, 25), maxlen=(13 if k == 1 else 8) if eng == 'hash_based' else None)
+        if it % 3 == 0:
+            seqs = seqs + far_apart(rng, 2)
+        n = len(seqs)
+        adj = search(eng, seqs, k, raw=True)
+        nkind = ['list', 'ndarray_U', 'series_perm', 'ndarray', 'index'][it % 5]
+        labels = list(seqs) if it % 2 else ['node_%d' % i for i in range(n)]
+        ctx.count('cc:raw-search-result-' + eng)
+        ctx.case(nontrivial_key=('cc-raw', tuple(seqs), k, eng))
+        check_cc(ctx, n, adj, 'raw', labels, 'raw result of %s(max_edits=%d) on %d sequences' % (eng, k, n), seqs, eng, k, nkind=nkind)
+
+
+def large_graph(rng, n):
+    """sparse neighbour list on n nodes whose clusters involve the highest node numbers (beyond 2**15, 2**16 when n allows)."""
+    und = []
+    top = list(range(n - 40, n))
+    rng.shuffle(top)
+    und += [(top[0], top[1]), (top[1], top[2]), (top[3], top[4])]                    # clusters of the highest numbers only
+    und += [(top[5], rng.randrange(0, 100)), (top[6], rng.randrange(100, 30000))]     # high with low
+    for b in (2 ** 15, 2 ** 16):
+        if n > b + 2:
+            und += [(b - 2, b - 1), (b - 1, b), (b, b + 1)]                           # a chain across the power of two
+            und += [(b + 2, rng.randrange(0, b - 5))]
+    for _ in range(150):
+        a, b = rng.sample(range(n), 2)
+        und.append((a, b))
+    for _ in range(60):                                                                  # pairs differing by a multiple of 2**15 / 2**16 / 256
+        a = rng.randrange(0, n)
+        b = a + rng.choice([256, 2 ** 15, 2 ** 16])
+        if b < n:
+            und.append((a, b))
+    return und
+
+
+def check_cc_large(ctx, n, adj, kind, desc):
+    labels = ['n%d' % i for i in range(n)]
+    expected = sorted(sorted(labels[u] for u in cl) for cl in py_clusters(n, edges_of(adj)))
+    got = cc_outcome(adj, kind, labels, 'list' if kind == 'list' else 'ndarray')
+    if got == ('ok', expected):
+        return True
+    miss = 'outcome %s' % (got,) if got[0] != 'ok' else 'clusters only returned %s, only expected %s' % (
+        [c for c in got[1] if c not in expected][:4], [c for c in expected if c not in got[1]][:4])
+    ctx.violation('property', "%s: graph_clustering(adj=%s... (%d triplets) as %s, nodes=['n0', ..., 'n%d'], 'cc'): %s" %
+                  (desc, adj[:6], len(adj), kind, n - 1, miss), dict(part='cc-large', n=n, adj=adj, kind=kind),
+                  site='clustering.graph_clustering[cc]')
+    return False
+
+
+def cc_large(ctx, sizes):
+    """(a) beyond 2**15 (and 2**16) nodes; expected from py_clusters."""
+    rng = ctx.rng
+    for it, n in enumerate(sizes):
+        n = n + rng.randint(50, 400)
+        adj = edge_form(rng, large_graph(rng, n), ['sym', 'one'][it % 2])
+        ctx.count('cc:nodes>2**16' if n > 2 ** 16 else 'cc:nodes>2**15')
+        ctx.case(nontrivial_key=('cc-large', n, tuple(adj[:20])))
+        check_cc_large(ctx, n, adj, ['list', 'ndarray', 'int32'][it % 3], 'sparse graph on %d nodes' % n)
+
+
+def check_cc_refill(ctx, rounds, desc):
+    """(a) called again and again with the SAME objects, refilled in place between the calls: one preallocated (m, 3) array, one label
+    list. rounds: [(adj, labels, changed)] with equal lengths; every call must answer for the content at the time of the call."""
+    m, n = len(rounds[0][0]), len(rounds[0][1])
+    arr = np.zeros((m, 3), dtype=np.int64)
+    labs = [None] * n
+    for r, (adj, labels) in enumerate(rounds):
+        arr[:] = np.array(adj, dtype=np.int64).reshape(m, 3)
+        labs[:] = labels
+        exp_pairs = ctx.oracle.run([('api_graph_cc', [n, edges_of(adj)])])[0]
+        expected = label_clusters([(str(labels[u]), c) for u, c in exp_pairs])
+        from pyrepseq.clustering import graph_clustering
+        g = call_impl(lambda: graph_clustering(arr, labs, 'cc'))
+        try:
+            got = ('ok', label_clusters(frame_pairs(g[1]))) if g[0] == 'ok' else g
+        except Exception as e:
+            got = ('exc', 'BadFrame:%s' % e)
+        if got != ('ok', expected):
+            ctx.violation('property', "%s: call %d of graph_clustering(arr, labels, 'cc') on one preallocated array / label list refilled in place "
+                          "(now adj=%s, labels=%s; earlier calls: %s) gave %s but the connected components with more than one member are %s" %
+                          (desc, r + 1, adj[:12], labels[:8], [a[:6] for a, _ in rounds[:r]], jsonable(got), expected),
+                          dict(part='cc-refill', rounds=[[a, l] for a, l in rounds[:r + 1]]), site='clustering.graph_clustering[cc]')
+            return False
+    return True
+
+
+def cc_refill(ctx, nseries):
+    rng = ctx.rng
+    for _ in range(nseries):
+        n = rng.randint(4, 9)
+        m = 2 * rng.randint(1, 5)
+        rounds = []
+        for r in range(4):
+            und = [tuple(rng.sample(range(n - 1), 2)) for _ in range(m // 2)]
+            adj = [t for i, j in und for t in ((i, j, 1), (j, i, 1))]
+            labels = ['r%d_%d' % (r if r != 2 else 1, i) for i in range(n)]          # round 3 re-uses the labels of round 2
+            if r == 3:
+                adj = [tuple(t) for t in rounds[-1][0]]                               # round 4: the edges of round 3, new labels only
+            rounds.append((adj, labels))
+        ctx.count('cc:same-objects-refilled-in-place')
+        ctx.case(nontrivial_key=('cc-refill', str(rounds)))
+        check_cc_refill(ctx, rounds, 'repeated calls')
+
+
+EXTRA_COMMUNITY = ['edge_betweenness', 'leading_eigenvector', 'voronoi', 'optimal_modularity']
+EXTRA_KW = {'leiden': [dict(resolution=1.0), dict(objective_function='modularity', n_iterations=-1), dict(objective_function='modularity', resolution=0.05),
+                       dict(objective_function='CPM', resolution=0.3, beta=0.1, n_iterations=4)],
+            'multilevel': [dict(resolution=0.2), dict(resolution=3.0)], 'walktrap': [dict(steps=1), dict(steps=8)], 'infomap': [dict(trials=5)],
+            'edge_betweenness': [dict(), dict(directed=False)], 'voronoi': [dict(), dict(radius=1.0)],
+            'leading_eigenvector': [dict(), dict(clusters=2)]}
+
+
+def community_batch(ctx, jobs):
+    """jobs: [(n, adj, labels, method, kw, desc, seqs, akind, nkind)] - check_community for all of them with the model's two functions
+    evaluated in two batches."""
+    live = []
+    for n, adj, labels, m, kw, desc, seqs, akind, nkind in jobs:
+        seed = ctx.rng.getrandbits(30)
+        r = community_labelling(n, adj, labels, m, kw, seed, akind, nkind)
+        if r[0] != 'ok' and IGRAPH_MAY_DECLINE.get(m) == r[1]:
+            ctx.count('community:%s-declined-by-igraph' % m)
+        elif r[0] != 'ok':
+            report_community(ctx, n, adj, labels, m, kw, seed, desc, seqs, r[1], akind, nkind)
+        else:
+            live.append((n, adj, labels, m, kw, desc, seqs, akind, nkind, seed, r[1]))
+    comps = ctx.oracle.run_parallel([('api_components', [j[0], edges_of(j[1])]) for j in live], nproc=4)
+    oks = ctx.oracle.run_parallel([('api_refines', [j[10], Q]) for j, Q in zip(live, comps)], nproc=4)
+    nbad = 0
+    for (n, adj, labels, m, kw, desc, seqs, akind, nkind, seed, P), Q, ok in zip(live, comps, oks):
+        if ok:
+            continue
+        nbad += 1
+        if nbad > 3:
+            continue
+        u, v = next((u, v) for u in range(n) for v in range(n) if P[u] == P[v] and Q[u] != Q[v])
+        report_community(ctx, n, adj, labels, m, kw, seed, desc, seqs,
+                         'nodes %s and %s are in one cluster but no path of neighbour edges connects them' % (labels[u], labels[v]), akind, nkind)
+    return nbad
+
+
+def community_extra(ctx, nsmall, nrandom):
+    """(b) for the other community_* methods the `clustering` argument reaches (the name is pasted into g.community_<name>): edge_betweenness
+    (a dendrogram, like fastgreedy / walktrap), leading_eigenvector, voronoi, optimal_modularity (small graphs only); further igraph options
+    through **kwargs for the six older ones; the neighbour list and the labels in other containers and edge-list forms."""
+    rng = ctx.rng
+    pairs5 = [(i, j) for i in range(5) for j in range(i + 1, 5)]
+    masks = list(range(1, 1 << 10))
+    if nsmall < len(masks):
+        masks = rng.sample(masks, nsmall)
+    labels5 = ['v%d' % i for i in range(5)]
+    jobs = []
+    for mask in masks:
+        und = [p for b, p in enumerate(pairs5) if mask >> b & 1]
+        for m in EXTRA_COMMUNITY:
+            form = ['sym', 'one', 'dup', 'self'][(mask + len(m)) % 4]
+            adj = edge_form(rng, und, form, range(5))
+            ctx.count('community:' + m)
+            ctx.case(nontrivial_key=('cg5x', mask, m))
+            jobs.append((5, adj, labels5, m, rng.choice(EXTRA_KW.get(m, [dict()])), 'graph on 5 nodes #%d, %s edge list' % (mask, form), None, 'list', 'list'))
+    for it in range(nrandom):
+        eng = ['nearest_neighbor', 'symdel', 'kdtree'][it % 3]
+        k = rng.choice([1, 2, 3])
+        seqs = small_repertoire(rng, rng.randint(4, 30)) + far_apart(rng, 2)
+        n = len(seqs)
+        sym = search(eng, seqs, k)
+        if not sym:
+            continue
+        form = ['sym', 'one', 'dup', 'self'][it % 4]
+        und = sorted(set((min(a, b), max(a, b)) for a, b, _ in sym))
+        adj = sym if form == 'sym' else edge_form(rng, und, form, range(n))
+        akind = ADJ_KINDS[it % len(ADJ_KINDS)]
+        nkind = NODE_KINDS[(it * 4 + 1) % len(NODE_KINDS)]
+        labels = ['node_%d' % i for i in range(n)]
+        for m in COMMUNITY + EXTRA_COMMUNITY[:3]:
+            kw = rng.choice(EXTRA_KW.get(m, [dict()]) + COMMUNITY_KW.get(m, []))
+            ctx.count('community:' + m)
+            ctx.count('community:adj-as-' + akind)
+            ctx.count('community:options=' + ','.join(sorted(kw)) if kw else 'community:options=none')
+            ctx.case(nontrivial_key=('community-extra', m, tuple(seqs), k, str(kw)))
+            jobs.append((n, adj, labels, m, kw, '%s on %s(max_edits=%d) %s edge list, %d sequences' % (m, eng, k, form, n), seqs, akind, nkind))
+    return community_batch(ctx, jobs)
+
+
+def check_hc_refill(ctx, hist, w, lk0, ck0, desc):
+    """(c) called again and again with the SAME objects (one object array of sequences, one metric object, the same option dicts),
+    the array refilled in place with the next entry of hist between the calls."""
+    import pyrepseq.distance as ds
+    import scipy.cluster.hierarchy as hc
+    from pyrepseq.metric import WeightedLevenshtein
+    arr = np.empty(len(hist[0]), dtype=object)
+    metric = WeightedLevenshtein(*w)
+    lk, ck = dict(lk0), dict(ck0)
+    for r, seqs in enumerate(hist):
+        arr[:] = seqs
+        vec = ctx.oracle.run([('api_pdist_wlev', [w[0], w[1], w[2], list(seqs)])])[0]
+        got = call_impl(lambda: ds.hierarchical_clustering(arr, metric, lk, ck))
+        Zr = hc.linkage(np.array(vec, dtype=np.float64), **lk0)
+        clr = hc.fcluster(Zr, **ck0)
+        ctx.count('hc:same-objects-refilled-in-place')
+        ctx.case(nontrivial_key=('hc-refill', tuple(seqs), r))
+        if got[0] != 'ok' or not np.array_equal(np.asarray(got[1][0]), Zr) or not np.array_equal(np.asarray(got[1][1]), clr):
+            ctx.violation('property', '%s: call %d of hierarchical_clustering(arr, metric, linkage_kws, cluster_kws) with the same objects, arr refilled in place '
+                          '(now %s; earlier %s), WeightedLevenshtein%s, %s, %s: %s differs from SciPy on the distances %s: %s' %
+                          (desc, r + 1, list(seqs), hist[:r], tuple(w), lk0, ck0, jsonable(got[1][1]) if got[0] == 'ok' else got, vec[:10], clr.tolist()),
+                          dict(part='hc-refill', history=[list(h) for h in hist[:r + 1]], weights=list(w), linkage_kws=lk0, cluster_kws=ck0),
+                          site='distance.hierarchical_clustering')
+            return False
+    return True
+
+
+def hc_refill(ctx, nseries):
+    rng = ctx.rng
+    for _ in range(nseries):
+        n = rng.randint(3, 9)
+        w = [rng.choice([1, 2]) for _ in range(3)]
+        lk, ck = dict(method=rng.choice(['single', 'complete', 'average'])), dict(t=rng.randint(1, 6), criterion='distance')
+        hist = [(small_repertoire(rng, n) * n)[:n] for _ in range(3)]
+        if not check_hc_refill(ctx, hist, w, lk, ck, 'repeated calls'):
+            return
+
+
+def hc_extras(ctx, nrounds):
+    """(c) over what the older loop leaves out: further containers, a caller-defined Metric with non-integer / very large distances,
+    chain weights, the metric handed over positionally or with the legacy pair tuple, partial option dicts (SciPy's own defaults apply to
+    what they omit), linkage methods centroid / median / ward, criteria monocrit / maxclust_monocrit, thresholds that are not integers,
+    sequences long enough for distances beyond 127 and 255, enough sequences for more than 255 flat clusters."""
+    rng = ctx.rng
+    plain_kinds = ['ndarray_U', 'series_default', 'series_intperm', 'index', 'list', 'tuple']
+    table_kinds = ['table_dupindex', 'table_fullcols', 'table_default', 'pair_tuple_nd', 'pair_tuple_series', 'pair_tuple']
+    methods = ['centroid', 'median', 'ward', 'single', 'complete', 'average', 'weighted']
+
+    def options(n, it):
+        lk = [dict(), dict(optimal_ordering=True), dict(method=methods[it % 7]), dict(method=methods[it % 7], optimal_ordering=it % 2 == 0)][it % 4]
+        c = it % 6
+        if c == 0:
+            ck = dict(t=rng.choice([0.5, 1.5, 2.25, 3.0, 1e6]), criterion='distance')
+        elif c == 1:
+            ck = dict(t=rng.choice([0.7, 1.0, 1.2]))                                   # criterion omitted: SciPy's default
+        elif c == 2 and n >= 2:
+            ck = dict(t=rng.choice([1, 2, 3, 5]), criterion=rng.choice(['monocrit', 'maxclust_monocrit']), monocrit=[float(rng.randint(0, 6)) for _ in range(n - 1)])
+        elif c == 3:
+            ck = dict(t=rng.choice([1, n, n + 3, 10 ** 6]), criterion='maxclust')
+        elif c == 4:
+            ck = dict(t=rng.randint(0, 9), criterion='distance')
+        else:
+            ck = None
+        return (None if it % 11 == 10 else lk), ck
+
+    for it in range(nrounds):
+        n = rng.randint(2, 12) if it % 9 else rng.choice([1, 2])
+        perm = list(range(n))
+        rng.shuffle(perm)
+        positional = False
+        if it % 2 == 0:
+            kind = plain_kinds[it // 2 % len(plain_kinds)]
+            cols = {None: (small_repertoire(rng, n, rng.choice([gens.AA, 'ACD'])) * n)[:n]}
+            m = it // 2 % 4
+            if m == 0:
+                metric_spec = ('Custom', [rng.choice([1, 1, 0.125, 40000, 3e9])])
+            elif m == 1:
+                metric_spec = ('WeightedLevenshtein', [rng.choice([1, 2, 5]) for _ in range(3)])
+                positional = True
+            elif m == 2:
+                metric_spec = ('Levenshtein', [1, 1, 1])
+                positional = it % 3 == 0
+            else:
+                metric_spec = None
+        else:
+            kind = table_kinds[it // 2 % len(table_kinds)]
+            which = 'AB' if kind.startswith('pair') else ['A', 'B', 'AB'][it // 2 % 3]
+            cols = tcr_columns(rng, n, which)
+            if kind.startswith('pair'):
+                cols = {c: cols[c] for c in ('CDR3A', 'CDR3B')}
+            m = it // 2 % 5
+            metric_spec = None
+            if which == 'AB' and m in (0, 1):
+                metric_spec = ('Cdr3Levenshtein', [rng.choice([1, 2]) for _ in range(3)] + [rng.choice([1, 2, 3]), rng.choice([1, 2, 3])])
+            elif which == 'AB' and m == 2:
+                metric_spec = (rng.choice(['BetaCdr3Levenshtein', 'AlphaCdr3Levenshtein']), [rng.choice([1, 2]) for _ in range(3)])
+                positional = True
+            elif which == 'A' and m == 3:
+                metric_spec = ('AlphaCdr3Levenshtein', [1, 1, 1])
+            elif which == 'B' and m == 3:
+                metric_spec = ('BetaCdr3Levenshtein', [2, 1, 1])
+        lk, ck = options(n, it)
+        ctx.count('hc:input=' + kind)
+        ctx.count('hc:method=' + ('default' if lk is None else lk.get('method', 'omitted')))
+        ctx.count('hc:criterion=' + ('default' if ck is None else ck.get('criterion', 'omitted')))
+        ctx.count('hc:metric=' + ('default' if metric_spec is None else metric_spec[0] + ('+chain-weights' if len(metric_spec[1]) == 5 else '')))
+        if positional:
+            ctx.count('hc:metric-positional')
+        ctx.case(nontrivial_key=('hc-extra', kind, tuple(map(tuple, cols.values())), str(lk), str(ck), str(metric_spec)))
+        hc_compare(ctx, cols, kind, perm, metric_spec, lk, ck, 'extra case %d' % it, positional=positional)
+        if len(ctx.violations) > 8:
+            return
+    # long sequences: distances beyond 127 (unweighted) and beyond 255 (weighted)
+    for spec, lo, hi in ((None, 150, 175), (('WeightedLevenshtein', [2, 3, 3]), 128, 140)):
+        seqs = [''.join(rng.choice(gens.AA) for _ in range(rng.randint(lo, hi))) for _ in range(3)]
+        seqs.append(gens.mutate(rng, seqs[0], gens.AA, 3))
+        seqs.append('CASSF')
+        rng.shuffle(seqs)
+        ctx.count('hc:sequences-longer-than-127')
+        ctx.case(nontrivial_key=('hc-long', tuple(seqs)))
+        hc_compare(ctx, {None: seqs}, 'list', list(range(5)), spec, dict(method='complete'), dict(t=rng.choice([100, 127, 130, 256, 300]), criterion='distance'),
+                   'long sequences')
+    # many sequences: more than 255 flat clusters, cluster numbers in the linkage beyond 2 * 255
+    seqs = []
+    while len(seqs) < 290:
+        seqs = sorted(set(seqs + repertoire(rng, 330, extras=False, minlen=3)))
+    rng.shuffle(seqs)
+    seqs = seqs[:rng.randint(262, 290)]
+    # (the second one with the function's default linkage options: average linkage with optimal leaf ordering)
+    for lk, ck in ((dict(method='single'), dict(t=0, criterion='distance')), (None, dict(t=258, criterion='maxclust'))):
+        ctx.count('hc:more-than-255-flat-clusters')
+        ctx.case(nontrivial_key=('hc-many', tuple(seqs), str(ck)))
+        hc_compare(ctx, {None: seqs}, 'ndarray', list(range(len(seqs))), None, lk, ck, '%d distinct sequences' % len(seqs))
+    if not ctx.quick:
+        # more than 1000 sequences, default options (the model's 550 000 distances take about 10 s)
+        seqs = []
+        while len(seqs) < 1030:
+            seqs = sorted(set(seqs + repertoire(rng, 1200, extras=False, minlen=3)))
+        rng.shuffle(seqs)
+        seqs = seqs[:rng.randint(1005, 1030)]
+        ctx.count('hc:more-than-1000-sequences')
+        ctx.case(nontrivial_key=('hc-1000', tuple(seqs)))
+        hc_compare(ctx, {None: seqs}, 'list', list(range(len(seqs))), None, None, dict(t=rng.choice([3, 1001]), criterion=rng.choice(['distance', 'maxclust'])),
+                   '%d distinct sequences' % len(seqs))
+
+
+def sl_extras(ctx, nrounds):
+    """(d) with the sequences in other containers, the threshold as a float, optimal_ordering, thresholds 5 and 6 (short sequences)."""
+    rng = ctx.rng
+    base = all_strings('AC', 3) + all_strings('ACD', 2, 1)
+    for it in range(nrounds):
+        if it % 2:
+            seqs = rng.sample(base, rng.randint(4, 12)) + rng.sample(base, 2)
+        else:
+            seqs = small_repertoire(rng, rng.randint(3, 14), maxlen=9) + ['WWWWWWW', 'PPPPPP']
+        if len(seqs) < 2:
+            seqs = seqs + ['CASSF']
+        variant = dict(kind=['ndarray', 'series', 'series_intperm', 'ndarray_U', 'index', 'tuple'][it % 6], float_t=it % 2 == 0)
+        if it % 3 == 0:
+            variant['optimal_ordering'] = it % 2 == 0
+        for t in ([1, 5, 6] if it % 2 == 0 else [0, 2, 3]):
+            eng = ['nearest_neighbor', 'symdel'][it % 2]
+            ctx.count('single:t=%d' % t)
+            ctx.count('single:input=' + variant['kind'])
+            ctx.case(nontrivial_key=('single-extra', tuple(seqs), t, str(variant)))
+            sl_compare(ctx, seqs, t, eng, 'single linkage t=%s (%s, %s), %d sequences' % (t, eng, variant, len(seqs)), variant=variant)
+        if len(ctx.violations) > 8:
+            return
+
+
 # ------------------------------------------------------------------ run
 def run(ctx):
     rng = ctx.rng
     q = ctx.quick
+    hc_defaults()
     ctx.rule = ("(a) graph_clustering 'cc' on neighbour lists returned by nearest_neighbor / symdel / kdtree / hash_based (triplets; list of tuples and "
                 "ndarray) for clonal repertoires with duplicates at distance 0, isolated nodes, and repertoires with no neighbours (the empty list), plus "
                 "every graph on 4 nodes without and with the self pairs (i, i, 0), and the lists of nearest_neighbor / symdel(seqs, seqs2=seqs) "
@@ -581,7 +1213,15 @@ def run(ctx):
                 "refinement of the connected components, also on repertoires with more than 100 clusters / communities; (c) hierarchical_clustering vs scipy linkage/fcluster of the model's condensed distances for list / tuple / ndarray / "
                 "Series(non-default index) / TCR tables with permuted or string index (CDR3A, CDR3B, both) / legacy pair tuple, methods single, complete, "
                 "average, weighted, optimal_ordering on/off, criteria distance / maxclust / inconsistent, explicit metrics; (d) single linkage cut at "
-                "t = 0..4 vs components of the max_edits = t graph from the real search and vs the single-linkage model. "
+                "t = 0..4 vs components of the max_edits = t graph from the real search and vs the single-linkage model; "
+                "(e) audit widening: (a) with the neighbour list as list of lists / tuple of tuples / int32, float64, Fortran, non-contiguous arrays / NumPy-scalar "
+                "tuples / the search result untouched, in symmetric, one-orientation, repeated and self-pair forms with distances up to 1000, the labels "
+                "(strings, integers that are not positions, floats, equal labels across clusters) as tuple / ndarray / Series (default, permuted, string index) / "
+                "Index / Categorical, beyond 2**15 and 2**16 nodes, and on one array / label list refilled in place between calls; (b) also edge_betweenness, "
+                "leading_eigenvector, voronoi, optimal_modularity and further igraph options; (c) also fixed-width arrays, Series with default / permuted integer "
+                "index, Index, tables with default / duplicated index / all six columns, a caller-defined Metric (non-integer, very large distances), chain weights, "
+                "positional metric, metric with the pair tuple, partial option dicts, centroid / median / ward, monocrit criteria, distances beyond 127 and 255, "
+                "more than 255 flat clusters, same objects refilled in place; (d) also other containers, float t, t = 5, 6. "
                 "non-trivial := the expected partition has a cluster of size >= 3 and an isolated node (a, b, d) / at least 3 distinct distances (c)")
 
     # ---- (a) connected components ------------------------------------------------------------------
@@ -812,6 +1452,23 @@ def run(ctx):
     community_many_clusters(ctx, 5 if q else 40, big=not q)
     if len(ctx.violations) > 8:
         return
+    # ---- audit widening (drawn after all older parts so that their random streams are what they were) ---------------------------
+    cc_input_kinds(ctx, 40 if q else 800)
+    cc_raw_search(ctx, 12 if q else 120)
+    cc_large(ctx, [2 ** 15, 2 ** 16] if q else [2 ** 15, 2 ** 16, 2 ** 15, 2 ** 16, 2 ** 17, 2 ** 15])
+    cc_refill(ctx, 3 if q else 30)
+    if len(ctx.violations) > 8:
+        return
+    community_extra(ctx, 30 if q else 1023, 6 if q else 60)
+    if len(ctx.violations) > 8:
+        return
+    hc_extras(ctx, 48 if q else 480)
+    hc_refill(ctx, 2 if q else 20)
+    if len(ctx.violations) > 8:
+        return
+    sl_extras(ctx, 6 if q else 36)
+    if len(ctx.violations) > 8:
+        return
     # a tiny matrix case for the dendrogram entry itself
     M = [[0, 1, 5, 6], [1, 0, 2, 7], [5, 2, 0, 9], [6, 7, 9, 0]]
     o = ctx.oracle.run([('api_c15_single_linkage', [4, M]), ('api_c15_threshold_graph', [4, M, 2]), ('api_c15_sl_cut', [4, M, 2])])
@@ -832,17 +1489,26 @@ def replay(ctx, obj):
     part = r.get('part')
     ctx.rule = 'replay of a stored failing input'
     ctx.case(nontrivial_key=('replay', str(r)[:200]))
+    hc_defaults()
     if part == 'cc':
         adj = [tuple(t) for t in r['adj']]
         if r.get('seqs') is not None and r.get('engine'):
-            adj = search(r['engine'], r['seqs'], r['k'])
-        check_cc(ctx, r['n'], adj, r['kind'], r['labels'], 'replay', r.get('seqs'), r.get('engine'), r.get('k'))
+            adj = search(r['engine'], r['seqs'], r['k'], r['kind'] == 'raw')
+        check_cc(ctx, r['n'], adj, r['kind'], r['labels'], 'replay', r.get('seqs'), r.get('engine'), r.get('k'), nkind=r.get('nkind'))
+    elif part == 'cc-large':
+        check_cc_large(ctx, r['n'], [tuple(t) for t in r['adj']], r['kind'], 'replay')
+    elif part == 'cc-refill':
+        check_cc_refill(ctx, [([tuple(t) for t in a], list(l)) for a, l in r['rounds']], 'replay')
+    elif part == 'hc-refill':
+        check_hc_refill(ctx, r['history'], r['weights'], r['linkage_kws'], r['cluster_kws'], 'replay')
     elif part == 'community':
-        check_community(ctx, r['n'], [tuple(t) for t in r['adj']], r['labels'], r['method'], r.get('kwargs') or {}, 'replay', r.get('seqs'), seed=r.get('seed'))
+        check_community(ctx, r['n'], [tuple(t) for t in r['adj']], r['labels'], r['method'], r.get('kwargs') or {}, 'replay', r.get('seqs'), seed=r.get('seed'),
+                        akind=r.get('akind') or 'list', nkind=r.get('nkind') or 'list')
     elif part == 'hc':
         cols = {(None if k == 'None' else k): v for k, v in r['cols'].items()}
-        hc_compare(ctx, cols, r['kind'], r['perm'], r.get('metric'), r.get('linkage_kws'), r.get('cluster_kws'), 'replay')
+        hc_compare(ctx, cols, r['kind'], r['perm'], r.get('metric'), r.get('linkage_kws'), r.get('cluster_kws'), 'replay',
+                   positional=bool(r.get('positional')))
     elif part == 'single':
-        sl_compare(ctx, r['seqs'], r['t'], r.get('engine') or 'nearest_neighbor', 'replay')
+        sl_compare(ctx, r['seqs'], r['t'], r.get('engine') or 'nearest_neighbor', 'replay', variant=r.get('variant'))
     else:
         run(ctx)
